@@ -1,6 +1,7 @@
 import IkeModel
 import IkeModel.GenAbs
 import IkeModel.GenAbsEap
+import IkeModel.Generated.Gen_lib
 
 /-! Driver for the GENERATED model (`IkeModel/Generated/Gen_message.lean`, written by
 `tools/go2lean` from /repo's current source): the same line protocol as `Driver.lean`, the same
@@ -153,6 +154,15 @@ def gAkaPrfOp (ts : Array String) : String :=
       (Gen.eap.EapAkaPrimePRF Prims.real ik ck id)
   | _, _, _ => "bad-args"
 
+/-- `prfplus <p> x<key> x<seed> <n>`: `lib.PrfPlus(prfType.Init(key), seed, n)`; `p` indexes the PRF table of the facts -/
+def gPrfPlusOp (ts : Array String) : String :=
+  match (ts[1]?).bind String.toNat?, (ts[2]?).bind parseX, (ts[3]?).bind parseX, (ts[4]?).bind String.toNat? with
+  | some p, some key, some seed, some n =>
+    match Facts.prfTable[p]? with
+    | some (_, _, _, ph) => gresStr xhex ((Gen.lib.PrfPlus Prims.real (Go.Mac.new ph key) seed (n : Int)).map (·.2))
+    | none => "bad-args"
+  | _, _, _, _ => "bad-args"
+
 def gDecEapOp (name : String) (b : Bytes) : Option String :=
   if name == "eap" then some (gresStr (fun e => (sxEap e).toStr) ((Gen.eap.EAP.Unmarshal {} b).map GenAbs.absEap))
   else if name == "eapm-ID" then
@@ -209,6 +219,7 @@ def gHandle (line : String) : String :=
     else if op == "akamac" then gAkamacOp ts
     else if op == "akamac-built" then gAkamacBuiltOp ts false
     else if op == "akaprf" then gAkaPrfOp ts
+    else if op == "prfplus" then gPrfPlusOp ts
     else if op == "reenc" then
       if h3 : ts.size = 3 then
         match parseX ts[2] with
